@@ -30,7 +30,7 @@ from ...entity_query_language.predicate import Symbol
 from ...entity_query_language.symbol_graph import (
     SymbolGraph,
 )
-from ...entity_query_language.utils import make_list, make_set
+from ...entity_query_language.utils import make_list
 
 SymbolType = Type[Symbol]
 """
@@ -177,10 +177,11 @@ class PropertyDescriptor(Symbol):
         :param inferred: Whether the relation is inferred or not.
         """
         if domain_value is not None and range_value is not None:
-            for v in make_set(range_value):
-                PropertyDescriptorRelation(
-                    domain_value, v, self.wrapped_field, inferred=inferred
-                ).add_to_graph()
+            # the range value is one element (the containers hand their elements over one by one): it is related as it
+            # is, also when it can be iterated itself
+            PropertyDescriptorRelation(
+                domain_value, range_value, self.wrapped_field, inferred=inferred
+            ).add_to_graph()
 
     def __get__(self, obj, objtype=None):
         """
